@@ -324,13 +324,18 @@ def r4(ctx) -> None:
            "a length mismatch between labels and values raises instead of silently truncating (zip)",
            construct=lib.short(lens[0], 60) if lens else "def")
     _ = fl
-    # the parameter history is written in optimiser space and read back through the inverse transform
+    history_pair(ctx, "C11-R4")
+
+
+def history_pair(ctx, rule: str = "C11-R4") -> None:
+    """The parameter history is written in optimiser space and read back through the inverse transform."""
+    repo = ctx.repo
     PH = "glotaran/parameter/parameter_history.py"
     ap = ctx.fn(PH, "ParameterHistory.append")
     fla = lib.flow(ap, repo)
     pp = ap.params()[1]
     recs = [c for c in lib.method_calls(ap, "append") if lib.chain_text(c.func.value) == "self._parameters"]
-    ctx.sites("C11-R4", "history record store", len(recs), 1)
+    ctx.sites(rule, "history record store", len(recs), 1)
 
     def from_export(term, idx) -> bool:
         for a in term.all_atoms():
@@ -343,23 +348,32 @@ def r4(ctx) -> None:
 
     for c in recs:
         t = fla.term(c.args[0], lib.stmt_of(c))
-        ctx.ob("C11-R4", "ParameterHistory.append/optimiser-space-values", from_export(t, 1), ap, lib.stmt_of(c),
+        ctx.ob(rule, "ParameterHistory.append/optimiser-space-values", from_export(t, 1), ap, lib.stmt_of(c),
                "history records hold the optimiser-space vector of *all* parameters (position 1 of "
                "get_label_value_and_bounds_arrays()), because set_from_history feeds them back through "
                "set_from_label_and_value_arrays, which applies the inverse transform", [f"record term: {t!r}"])
     lab_st = [s for t_, s in lib.attr_stores(ap, "self._parameter_labels")]
     for s_ in lab_st:
         t = fla.term(s_.value, s_)
-        ctx.ob("C11-R4", "ParameterHistory.append/labels-of-same-export", from_export(t, 0), ap, s_,
+        ctx.ob(rule, "ParameterHistory.append/labels-of-same-export", from_export(t, 0), ap, s_,
                "the history labels are position 0 of the same export (plus the leading 'iteration')", [f"label term: {t!r}"])
     sh = ctx.fn(PS, "Parameters.set_from_history")
     cs = [c for c in lib.method_calls(sh, "set_from_label_and_value_arrays")]
+    ctx.ob(rule, "set_from_history/applies-record-through-setter", len(cs) == 1, sh, cs[0] if cs else sh.node,
+           "the record is applied by exactly one call of set_from_label_and_value_arrays (the only place that applies the inverse of the "
+           "optimiser transform); assigning `parameter.value = <history entry>` restores log-values for non-negative parameters",
+           construct=lib.short(cs[0], 100) if cs else "def set_from_history")
+    direct = [st for t_, st in lib.stores(sh) if isinstance(t_, ast.Attribute) and t_.attr in ("value", "_value")]
+    ctx.ob(rule, "set_from_history/no-direct-value-store", not direct, sh, direct[0] if direct else sh.node,
+           "history entries are optimiser-space numbers: they are never stored into Parameter.value directly",
+           construct=lib.short(direct[0], 100) if direct else "def set_from_history")
     for c in cs:
         ok = len(c.args) == 2 and all(isinstance(a, ast.Subscript) and isinstance(a.slice, ast.Slice) and a.slice.upper is None
                                       and isinstance(a.slice.lower, ast.Constant) and a.slice.lower.value == 1 for a in c.args) \
             and "parameter_labels" in norm(c.args[0]) and "get_parameters" in norm(c.args[1])
-        ctx.ob("C11-R4", "set_from_history/reads-through-inverse-transform", ok, sh, lib.stmt_of(c),
+        ctx.ob(rule, "set_from_history/reads-through-inverse-transform", ok, sh, lib.stmt_of(c),
                "a history record (without its leading iteration entry) is applied with set_from_label_and_value_arrays")
+
 
 
 def check(ctx) -> None:
